@@ -70,6 +70,25 @@ fn p_vtbl_only_slot() {
     kani::cover!(true, "end");
 }
 
+#[kani::proof]
+#[kani::unwind(14)]
+fn p_vtbl_skip_func() {
+    type C = CGlueObjContainer<CBox<'static, Imp>, NoContext, TskRetTmp<NoContext>>;
+    assert!(size_of::<TskVtbl<C>>() == 2 * W, "C04 exactly one function pointer per EXPORTED method: a #[skip_func] method has no slot");
+    let v = <&TskVtbl<C>>::default();
+    let w = words(v);
+    assert!(w[0] == v.sk_first() as usize && w[1] == v.sk_third() as usize, "C04 vtable slots follow declaration order around a skipped method");
+    let obj = trait_obj!(Imp { v: 100 } as Tsk);
+    let c = obj.ccont_ref();
+    let wv = words(obj.get_vtbl());
+    let mut f = obj.get_vtbl().sk_first();
+    f = unsafe { core::mem::transmute(wv[0]) };
+    assert!(unsafe { f(c) } == 100 ^ 21, "C04 slot 0 reaches the first declared method");
+    f = unsafe { core::mem::transmute(wv[1]) };
+    assert!(unsafe { f(c) } == 100 ^ 23, "C04 slot 1 reaches the next exported method after the skipped one");
+    kani::cover!(true, "end");
+}
+
 //@ prefix=p_obj kind=property clause=a single-trait object is {vtable pointer, instance, context, temporary storage}
 #[kani::proof]
 #[kani::unwind(14)]
